@@ -122,11 +122,34 @@ func (b Builder) Alloc(elem Type, heap bool) (ret Expr) {
 	} else {
 		// Stack-local zero-sized variables keep a distinct alloca. Only heap
 		// allocations and package globals use the shared module sentinel.
-		ret = Expr{llvm.CreateAlloca(b.impl, elem.ll), prog.VoidPtr()}
+		ret = Expr{b.entryAlloca(elem.ll), prog.VoidPtr()}
 		ret.impl = b.zeroinit(ret, size).impl
 	}
 	ret.Type = prog.Pointer(elem)
 	return
+}
+
+// entryAlloca creates a fixed-size alloca in the entry block of the current
+// function. A local variable is one slot of the frame that is re-initialised
+// each time its declaration executes; an alloca emitted at the declaration
+// itself would allocate a fresh slot on every iteration of an enclosing loop
+// and exhaust the stack.
+func (b Builder) entryAlloca(t llvm.Type) llvm.Value {
+	if b.Func == nil || b.Func.impl.IsNil() {
+		return llvm.CreateAlloca(b.impl, t)
+	}
+	entry := b.Func.impl.EntryBasicBlock()
+	if entry.IsNil() {
+		return llvm.CreateAlloca(b.impl, t)
+	}
+	nb := b.Prog.ctx.NewBuilder()
+	defer nb.Dispose()
+	if first := entry.FirstInstruction(); !first.IsNil() {
+		nb.SetInsertPointBefore(first)
+	} else {
+		nb.SetInsertPointAtEnd(entry)
+	}
+	return llvm.CreateAlloca(nb, t)
 }
 
 // AllocU allocates uninitialized space for n*sizeof(elem) bytes.
